@@ -206,6 +206,85 @@ def clause3_selection(ctx, P):
     ctx.floor("C16.3 R-PAIR", 3)
 
 
+def clause3b_option_key(ctx, P):
+    """the option key is recognised by an exact comparison (a prefix comparison would swallow unknown keys)"""
+    key = "caseInsensitive"
+    n = 0
+    for f in P.own_functions():
+        if f.base != "fetch.c":
+            continue
+        for c in f.calls(("strncmp", "strcmp", "jet_strncasecmp", "jet_strcasecmp")):
+            lits = [Q.global_text(P, P.globals.get(P.term(f, a)[1], {})) if P.term(f, a)[0] == "global" else
+                    (Q.global_text(P, P.globals.get(P.term(f, a)[1][1], {})) if P.term(f, a)[0] == "cgep" and P.term(f, a)[1][0] == "global" else P.literal(a))
+                    for a in c.a[:2]]
+            if key not in lits:
+                continue
+            n += 1
+            name = P.srcname_of(c.callee)
+            if name in ("strcmp",):
+                ok = True
+            else:
+                k = P.const_int(c.a[2])
+                ok = name == "strncmp" and k is not None and k >= len(key) + 1
+            ctx.ob("C16.3 R-PAIR", f, "option-key-exact:" + Q.ordinal_site(f, c, P), ok,
+                   "the caseInsensitive option key is recognised by %s over %s bytes: keys that merely start with it are treated as the "
+                   "option instead of being refused as unknown matchers" % (name, P.const_int(c.a[2]) if len(c.a) > 2 else "?"))
+    if n < 1:
+        raise AnalysisBroken("comparison with the caseInsensitive option key not found")
+
+
+def clause2b_casefold(ctx, P):
+    """jet_strcasecmp / jet_strncasecmp / jet_strcasestr are what the sibling rule assumes: the libc functions, or an own loop
+    whose folding helper is the ASCII one (evaluated on all 256 byte values)"""
+    from ..core.feval import FEval
+    libc = {"jet_strcasecmp": "strcasecmp", "jet_strncasecmp": "strncasecmp", "jet_strcasestr": "strcasestr"}
+    for name, want in libc.items():
+        fs = [f for f in P.by_src.get(name, []) if P.own(f)]
+        if len(fs) != 1:
+            raise AnalysisBroken("%s: %d definitions" % (name, len(fs)))
+        f = fs[0]
+        ctx.fn_seen(f)
+        wrapper = False
+        if f.nblocks == 1:
+            calls = [i for i in f.all_insts() if i.op == "call"]
+            if len(calls) == 1 and calls[0].callee and P.srcname_of(calls[0].callee) == want and \
+                    [P.term(f, a) for a in calls[0].a] == [("param", k, f.params[k]["name"]) for k in range(f.nparams)]:
+                rt = P.term(f, f.term_inst(0).a[0])
+                wrapper = rt[0] == "call" and rt[3] == calls[0].id
+        if wrapper:
+            ctx.ob("C16.2 R-SIB", f, "is-libc-" + want, True, "%s is %s" % (name, want))
+            continue
+        # own implementation: every single-argument integer helper reachable from it must be the ASCII fold
+        helpers = []
+        seen = set()
+        st = [f]
+        while st:
+            g = st.pop()
+            if g.name in seen:
+                continue
+            seen.add(g.name)
+            for c in g.calls():
+                h = P.functions.get(c.callee) if c.callee else None
+                if h is not None and P.own(h):
+                    if h.nparams == 1 and h.ret in ("i32", "i8") and not any(i.op in ("load", "store", "call") for i in h.all_insts()):
+                        helpers.append(h)
+                    else:
+                        st.append(h)
+        if not helpers:
+            raise AnalysisBroken("%s is neither the libc wrapper nor a loop over a recognisable folding helper" % name)
+        for h in helpers:
+            ev = FEval(P, h, None, ptr_param=None)
+            bad = []
+            for c in range(256):
+                r, _ = ev.run({}, {0: c})
+                ref = c + 32 if 65 <= c <= 90 else c
+                if (r & 0xFF) != ref:
+                    bad.append(c)
+            ctx.ob("C16.2 R-SIB", h, "ascii-fold", not bad,
+                   "%s (used by %s) is not the ASCII case fold: it also changes byte(s) %s - e.g. '[' and '{' compare equal, so "
+                   "case-insensitive matchers select paths they must not" % (h.srcname, name, [hex(x) for x in bad[:8]]))
+
+
 def clause4_conjunction(ctx, P):
     sm = P.fn("fetch.c:state_matches")
     views = Q.path_views(ctx, P, sm)
@@ -436,7 +515,9 @@ def run(ctx):
         P, cg = cfg.P, cfg.cg
         rows = clause1_table(ctx, P)
         clause2_siblings(ctx, P, rows)
+        clause2b_casefold(ctx, P)
         clause3_selection(ctx, P)
+        clause3b_option_key(ctx, P)
         clause4_conjunction(ctx, P)
         clause5_refusals(ctx, P, cg)
         clause6_slots(ctx, P, cg)
